@@ -15,6 +15,7 @@ RULE = (
     "(half of the shards run with NUMBA_DISABLE_JIT=1), plus face-/node-centred data of rank 1-3 on closed meshes. Oracle: "
     "the faces around every node walked across shared edges in the faces' own counter-clockwise orientation "
     "(vlib/refmodel.dual_ring) must equal the dual face as a cyclic sequence; dual nodes must sit at the face centroids. "
+    "Routes to the judged grid: topology arrays, the same with Cartesian node coordinates at radius 2.5 / 40 / 6371229, and the dual of a face subset taken from a fresh grid / after node_face_connectivity / after the whole grid's dual (the subset judged against the mesh it reports). "
     "Non-trivial = mixed face sizes, or a partial mesh, or a pole/antimeridian node, or valence >= 6; distinct by case hash."
 )
 ASSUMPTIONS = [
